@@ -222,7 +222,7 @@ def tlc(module, cfg, workers=1, env=None, timeout=900, xmx='3g', xss='512m', ext
     if deque:
         jopts.append('-Dtlc2.tool.queue.IStateQueue=StateDeque')
     cmd = ['java'] + jopts + ['-cp', ':'.join([TLAJAR, CMJAR, JAVADIR]), 'tlc2.TLC',
-                              '-workers', str(workers), '-metadir', meta, '-config', cfg]
+                              '-workers', str(workers), '-metadir', meta, '-noGenerateSpecTE', '-config', cfg]
     if simulate:
         cmd += ['-simulate', simulate]
     cmd += list(extra) + [module + '.tla']
